@@ -20,6 +20,8 @@
     replaced by zero values. *)
 From Coq Require Import List NArith ZArith Bool.
 From Vivid Require Import Codec.Prim Codec.PrimProofs Codec.Prim2 Codec.Prim2Proofs Codec.Reflect Codec.ReflectProofs.
+From Vivid Require Import Codec.PrimO Codec.ReflectO Codec.ReflectOProofs Codec.Buf Codec.BufProofs Codec.RefNorm Codec.RefNormProofs.
+From Coq Require Import Lia.
 Import ListNotations.
 Local Open Scope N_scope.
 
@@ -232,3 +234,297 @@ Print Assumptions C12_unsupported_kinds.
 Print Assumptions C12_length_prefix_too_long.
 Print Assumptions C12_length_size_invalid.
 Print Assumptions C12_noncanonical_accepted.
+
+(** * Part II — C12, the Writer and the Reader as STATE MACHINES — buffer growth, byte order options, the sticky error, Reset /
+    Seek / Skip / Remaining, the two sync.Pools, WriteMessage -> SerializeRemotingMessage -> pooled scratch Writer ->
+    message writer -> WriteMessage ... at every depth, ReadMessage -> pooled Reader -> message reader — and the
+    ActorRef factory at string level.  Lemmas in Codec/PrimO.v, ReflectOProofs.v, BufProofs.v, RefNormProofs.v.
+    Models: Codec/PrimO.v, ReflectO.v, Buf.v, RefNorm.v.
+
+    Vocabulary (Codec/Buf.v).
+    [writer] = (w_buf = w.buf[:len], w_cap = cap(w.buf), w_ord : BE | LE, w_err = the sticky error); [w_ok w]: len <= cap.
+    [wop]: the operations — the twelve WriteXxx ([WPrim]), WriteVarint/WriteUvarint, WriteBytes, WriteBytesWithLength,
+    WriteShortString, Write, WriteFrom, Reset, and WriteMessage of a registered message ([WMsgReg name body ret]: the
+    message's writer is the SCRIPT [body], a list of operations on the scratch Writer it is given, nested arbitrarily,
+    and [ret] says how it returns) or of an outside message ([WMsgOut]: through the Codec).
+    [run_wop op w p] = the real thing: capacity, growth, the pool [p] (objects that were Put + an oracle naming the object
+    every Get hands out), roll-back of WriteMessage; it returns the Writer, the pool and the error WriteMessage returned.
+    [wpool_clean p]: every pooled Writer is empty and error-free (what Release leaves; the byte order is set by every Get).
+    [abs w] = (Bytes(), Err()): the ABSTRACT Writer; [spec_wop o op a] = the functional encoder of byte order [o] on it,
+    no capacity, no pool: a registered message's body is encoded by a fresh big-endian abstract Writer.
+    [reader], [prop] (operations a message reader may perform), [rop] (+ Reset, ReadMessage), [run_rop], [run_props];
+    [rrem r] = Remaining(); [r_ok r]: Pos() <= len(buf).
+    [sop]/[run_sop]: SCENARIOS — several Writers and Readers (handles) created with NewWriter / NewReader(opts) or taken
+    from the pools, operated on in any interleaving, released in any order.
+    Codec/ReflectO.v: [writeC o ty v] / [readO o tot ty st] = Writer.Write / Reader.Read in byte order [o] (chunks +
+    outcome / outcome + meter); for [o = BE] they compute exactly [Reflect.write] / [Reflect.read].
+    Codec/RefNorm.v: [new_ref ip a p] = actor.NewRef(a, p) on byte strings, [ip s] = (net.ParseIP(s) != nil). *)
+(** ** 1. Writer: the real Writer (capacity, growth, pools, nesting, roll-back) computes the functional encoder *)
+
+(** ONE operation on ANY Writer — new, reset, taken from the pool, grown, with any earlier content, in the error state or
+    not, of either byte order — with ANY clean pool and ANY pool behaviour (oracle): Bytes(), Err() and the returned
+    error are those of the functional encoder applied to what the Writer held; the pool stays clean, the byte order and
+    len <= cap are kept.  By induction over the nesting of message bodies. *)
+Theorem C12_writer_refines op w p w' p' e :
+  w_ok w -> wpool_clean p = true -> run_wop op w p = (w', p', e) ->
+  (abs w', e) = spec_wop (w_ord w) op (abs w) /\ wpool_clean p' = true /\ w_ord w' = w_ord w /\ w_ok w'.
+Proof. exact (run_wop_refines op w p w' p' e). Qed.
+(** any sequence of operations (the caller goes on after a failed WriteMessage) *)
+Theorem C12_writer_sequence ops w p w' p' es :
+  w_ok w -> wpool_clean p = true -> run_wops ops w p = (w', p', es) ->
+  (abs w', es) = spec_wops (w_ord w) ops (abs w) /\ wpool_clean p' = true /\ w_ord w' = w_ord w /\ w_ok w'.
+Proof. exact (run_wops_refines ops w p w' p' es). Qed.
+(** no leak of earlier content, error cleared by Reset: after Reset, whatever the Writer held or was, the operations
+    produce what they produce on a new Writer *)
+Theorem C12_writer_reset_forgets ops w p w' p' es :
+  w_ok w -> wpool_clean p = true -> run_wops (WReset :: ops) w p = (w', p', es) ->
+  (abs w', tl es) = spec_wops (w_ord w) ops ([], None).
+Proof. exact (reset_forgets ops w p w' p' es). Qed.
+(** what an operation appends does not depend on what the Writer already holds *)
+Theorem C12_writer_append_only o op b :
+  op <> WReset ->
+  spec_wop o op (b, None) = ((b ++ fst (fst (spec_wop o op ([], None))), snd (fst (spec_wop o op ([], None)))), snd (spec_wop o op ([], None))).
+Proof. exact (spec_wop_prefix o op b). Qed.
+(** the sticky error: nothing but Reset changes a Writer in the error state, and WriteMessage on it fails *)
+Theorem C12_writer_sticky op w p w' p' r e :
+  w_ok w -> wpool_clean p = true -> w_err w = Some e -> op <> WReset -> run_wop op w p = (w', p', r) ->
+  abs w' = abs w /\ (is_plain op = false -> r <> None).
+Proof. exact (writer_sticky op w p w' p' r e). Qed.
+(** nested length prefixes at every depth: WriteMessage of a registered message whose writer succeeds appends
+    len4(body) body len4(name) name, lengths in the OUTER Writer's order, [body] = exactly what a fresh big-endian Writer
+    produces for the script (which may contain WriteMessage again) *)
+Theorem C12_nested_frame o name body b d :
+  spec_wbody body ([], None) = ((d, None), None) ->
+  spec_wop o (WMsgReg name body RetSticky) (b, None) = ((b ++ put_lp4O o d ++ put_lp4O o name, None), None).
+Proof. exact (nested_frame o name body b d). Qed.
+(** a failed WriteMessage (error or panic in the message's writer, at any depth) leaves Bytes() and Err() as they were *)
+Theorem C12_writemessage_rollback name body ret w p w' p' e :
+  w_ok w -> wpool_clean p = true -> run_wop (WMsgReg name body ret) w p = (w', p', Some e) -> abs w' = abs w.
+Proof. exact (writemessage_rollback name body ret w p w' p' e). Qed.
+
+(** ** 2. Writer -> bytes -> Reader, through both machines *)
+(** [wf_op]: the operations the Reader can undo with the values for which it does (every WriteXxx within its range,
+    Write / WriteFrom of supported types); [inv_op] the inverse read, [val_op] the value it must return, [total_cnt] the
+    slice elements charged to the Reader's budget.
+    ANY Writer (pooled, reset, grown ...; either order; earlier content b0) performs the operations; a Reader of the same
+    order placed behind b0 over the Writer's bytes followed by anything performs the inverse operations: no error on either
+    side, the values come back, the Reader ends EXACTLY at the end of the Writer's bytes. *)
+Theorem C12_machine_roundtrip ops w p w' p' es r junk :
+  Forall wf_op ops -> w_ok w -> w_err w = None -> wpool_clean p = true ->
+  run_wops ops w p = (w', p', es) ->
+  r_buf r = w_buf w' ++ junk -> r_pos r = wlen w -> r_err r = None -> r_ord r = w_ord w -> r_elems r = 0 ->
+  w_err w' = None /\ Forall (eq None) es /\
+  run_props (map inv_op ops) r = (mkR (r_buf r) (wlen w') (w_ord w) None (total_cnt ops), inl (map val_op ops)).
+Proof. exact (machine_roundtrip ops w p w' p' es r junk). Qed.
+(** a Reader in any state (any position, elements already charged) whose budget still covers the values (after a Seek it always does: C12_seek_then_decode) *)
+Theorem C12_ops_roundtrip o ops :
+  Forall wf_op ops ->
+  exists enc, spec_wops o ops ([], None) = ((enc, None), map (fun _ => None) ops) /\ total_cnt ops <= N.of_nat (length enc) /\
+    forall r rest, r_err r = None -> r_ord r = o -> rrem r = enc ++ rest -> r_elems r + total_cnt ops <= rlen r ->
+      run_props (map inv_op ops) r =
+      (mkR (r_buf r) (r_pos r + N.of_nat (length enc)) o None (r_elems r + total_cnt ops), inl (map val_op ops)).
+Proof. exact (ops_roundtrip o ops). Qed.
+(** a registered message: WriteMessage on a Writer of order [o]; ReadMessage on any Reader of order [o] with any clean
+    Reader pool, the registry mapping the name to the inverse script: the message's fields come back, the outer Reader
+    ends exactly behind the frame *)
+Theorem C12_message_roundtrip o name body :
+  Forall wf_op body ->
+  exists d, spec_wbody body ([], None) = ((d, None), None) /\
+    (N.of_nat (length d) < 4294967296 -> N.of_nat (length name) < 4294967296 ->
+     spec_wop o (WMsgReg name body RetSticky) ([], None) = ((put_lp4O o d ++ put_lp4O o name, None), None) /\
+     forall env r rest p, lookup name (e_table env) = Some (map inv_op body) ->
+       r_err r = None -> r_ord r = o -> rrem r = (put_lp4O o d ++ put_lp4O o name) ++ rest -> rpool_clean p = true ->
+       fst (fst (run_rop env RMsg r p)) = mkR (r_buf r) (r_pos r + N.of_nat (length (put_lp4O o d ++ put_lp4O o name))) o None (r_elems r)
+       /\ snd (run_rop env RMsg r p) = inl (RVMsg name (map val_op body))).
+Proof. exact (message_roundtrip o name body). Qed.
+
+(** ** 3. pools: what a Writer / Reader does depends on its own history only *)
+(** every step of every scenario — any number of handles, any interleaving, any byte order options on NewWriter / NewReader /
+    NewWriterFromPool / NewReaderFromPool, anything released into the pools, any pool behaviour; the only side condition
+    ([admissible]) is that a caller-supplied Buffer is a Go slice, len <= cap: the invariant (pooled objects are empty and
+    error-free, len <= cap, Pos <= len) is kept, and
+    - an operation on a Writer handle is the functional encoder on what THAT Writer held — whatever the other handles did,
+      whatever the pools contain, whichever objects they hand out;
+    - NewWriterFromPool returns an empty, error-free Writer of the requested order, big-endian when none is requested —
+      whatever the previous users of the object asked for;
+    - an operation on a Reader handle does what it does with an empty pool; NewReaderFromPool(data) is NewReader(data). *)
+Theorem C12_scenario env op s :
+  sst_ok s -> admissible op ->
+  sst_ok (fst (run_sop env op s)) /\
+  match op with
+  | SW h x ids =>
+      match find_h h (s_hw s) with
+      | Some (i, w) => exists w' e, snd (run_sop env op s) = ObsW w' e /\ (abs w', e) = spec_wop (w_ord w) x (abs w) /\ w_ord w' = w_ord w
+      | None => snd (run_sop env op s) = ObsDead
+      end
+  | SGetW h ord id =>
+      exists w, snd (run_sop env op s) = ObsW w None /\ abs w = ([], None) /\ w_ord w = match ord with Some o => o | None => BE end
+  | SR h x ids =>
+      match find_h h (s_hr s) with
+      | Some (i, r) => exists r' v, snd (run_sop env op s) = ObsR r' v /\ (r', v) = (fst (fst (run_rop env x r (mkRP [] []))), snd (run_rop env x r (mkRP [] [])))
+      | None => snd (run_sop env op s) = ObsDead
+      end
+  | SGetR h data ord id =>
+      exists r, snd (run_sop env op s) = ObsR r (inl RVUnit) /\ r = mkR data 0 (match ord with Some o => o | None => BE end) None 0
+  | _ => True
+  end.
+Proof. exact (scenario_step env op s). Qed.
+(** ReadMessage: the result does not depend on the Reader pool or its oracle; the pool stays clean *)
+Theorem C12_reader_pool_independent env op r p :
+  rpool_clean p = true ->
+  rpool_clean (snd (fst (run_rop env op r p))) = true /\
+  fst (fst (run_rop env op r p)) = fst (fst (run_rop env op r (mkRP [] []))) /\
+  snd (run_rop env op r p) = snd (run_rop env op r (mkRP [] [])).
+Proof. exact (run_rop_pool env op r p). Qed.
+
+(** the default byte order (repaired by 62b310d / 4dbfc0b; before, a pooled object kept the order of its previous user and
+    this was C12_pool_default_order_refuted): a Writer / Reader obtained from a pool whose objects are empty and error-free
+    — which is what Release leaves, whatever byte order they carry — is empty, error-free and of the requested order,
+    big-endian when none is requested; NewReaderFromPool(data) IS NewReader(data) *)
+Theorem C12_pool_default_order ord p id w p1 :
+  wpool_clean p = true -> get_writer_opt ord p = ((id, w), p1) ->
+  w_buf w = [] /\ w_err w = None /\ w_ord w = match ord with Some o => o | None => BE end /\ wpool_clean p1 = true.
+Proof. exact (get_writer_clean ord p id w p1). Qed.
+Theorem C12_reader_pool_default_order data p id r p1 :
+  rpool_clean p = true -> get_reader_opt data None p = ((id, r), p1) -> r = new_reader data /\ rpool_clean p1 = true.
+Proof. exact (get_reader_clean data p id r p1). Qed.
+(** the old witnesses as regression scenarios: a Writer taken with LittleEndian and released; a Writer made with
+    NewWriter(LittleEndian) and released; the next user asking for the default writes uint16(1) as 00 01, and
+    SerializeRemotingMessage, handed the second object, writes the message body big-endian; likewise for Readers *)
+Theorem C12_pool_order_regression :
+  snd (run_scenario (mkEnv [] 0) leak_scenario s_init) =
+  [ObsW (mkW [] 256 LE None) None; ObsNone; ObsW (mkW [] 256 BE None) None;
+   ObsW (mkW [0; 1] 256 BE None) None;
+   ObsNone;
+   ObsW (mkW [] 256 LE None) None; ObsNone;
+   ObsW (mkW [] 256 BE None) None;
+   ObsW (mkW [0; 0; 0; 2; 0; 1; 0; 0; 0; 1; 120] 256 BE None) None].
+Proof. exact pool_order_regression. Qed.
+Theorem C12_reader_pool_order_regression :
+  snd (run_scenario (mkEnv [] 0) leak_scenario_r s_init) =
+  [ObsR (mkR [0; 1] 0 LE None 0) (inl RVUnit); ObsNone; ObsR (mkR [0; 1] 0 BE None 0) (inl RVUnit);
+   ObsR (mkR [0; 1] 2 BE None 0) (inl (RVGo (VN 1)))].
+Proof. exact pool_order_regression_reader. Qed.
+
+(** Seek (repaired by ce2f8d5; before, Seek kept the element budget and this was C12_seek_reread_refuted): after Seek(p) the
+    Reader is a NEW Reader over the same buffer positioned at p — error cleared, element budget cleared *)
+Theorem C12_seek_is_fresh_reader p r :
+  (0 <= p <= Z.of_N (rlen r))%Z -> plain_rop (RSeek p) r = (mkR (r_buf r) (Z.to_N p) (r_ord r) None 0, inl RVUnit).
+Proof. exact (seek_spec p r). Qed.
+(** hence: whatever the Reader did before (budget used up, error state), after Seek(p) decoding what a Writer wrote at p
+    returns the values and ends exactly behind them ... *)
+Theorem C12_seek_then_decode o ops :
+  Forall wf_op ops ->
+  exists enc, spec_wops o ops ([], None) = ((enc, None), map (fun _ => None) ops) /\
+    forall r p rest, r_ord r = o -> p <= rlen r -> skipn (N.to_nat p) (r_buf r) = enc ++ rest ->
+      run_props (RSeek (Z.of_N p) :: map inv_op ops) r =
+      (mkR (r_buf r) (p + N.of_nat (length enc)) o None (total_cnt ops), inl (RVUnit :: map val_op ops)).
+Proof. exact (seek_then_decode o ops). Qed.
+(** ... any number of times *)
+Theorem C12_seek_reread o ops n :
+  Forall wf_op ops ->
+  exists enc, spec_wops o ops ([], None) = ((enc, None), map (fun _ => None) ops) /\
+    forall r p rest, r_ord r = o -> p <= rlen r -> skipn (N.to_nat p) (r_buf r) = enc ++ rest ->
+      run_props (concat (repeat (RSeek (Z.of_N p) :: map inv_op ops) (S n))) r =
+      (mkR (r_buf r) (p + N.of_nat (length enc)) o None (total_cnt ops), inl (concat (repeat (RVUnit :: map val_op ops) (S n)))).
+Proof. exact (seek_reread_n o ops n). Qed.
+(** the old witness as a regression scenario: []bool{true x5} (9 bytes) decoded three times *)
+Theorem C12_seek_reread_regression :
+  run_props [RRead reread_ty; RSeek 0; RRead reread_ty; RSeek 0; RRead reread_ty] (new_reader reread_data) =
+  (mkR reread_data 9 BE None 5, inl [RVGo reread_val; RVUnit; RVGo reread_val; RVUnit; RVGo reread_val]).
+Proof. exact seek_reread_regression. Qed.
+
+(** ** 4. the non-default byte order *)
+(** fixed-width integers (hence float bit patterns and every length prefix), both orders *)
+Theorem C12_prim_any_order o k n rest : n < 256 ^ N.of_nat k -> rd_uintO o k (beO o k n ++ rest) = Ok (n, rest).
+Proof. exact (rd_uintO_beO o k n rest). Qed.
+Theorem C12_bytes_with_length_any_order o size b e rest :
+  put_lpkO o size b = Ok e -> N.of_nat (length b) < 4294967296 -> rd_lpkO o size (e ++ rest) = Ok (b, rest).
+Proof. exact (rd_lpkO_put o size b e rest). Qed.
+(** a Writer and a Reader of different orders do not agree *)
+Theorem C12_order_mismatch_refuted : rd_uintO BE 2 (beO LE 2 1) = Ok (256, []).
+Proof. exact order_mismatch_refuted. Qed.
+(** Write / Read of every value of every supported type, nested arbitrarily, in EITHER order, on a Reader in any state whose
+    element budget covers the value (C12_reflect_any_reader for both orders) *)
+Theorem C12_reflect_any_order o ty v :
+  supported ty = true -> has_typeb ty v = true -> fits ty v = true ->
+  snd (writeC o ty v) = OOk tt /\ cnt ty v <= N.of_nat (length (flat (writeC o ty v))) /\
+  forall tot rest el, el + cnt ty v <= tot ->
+    fst (readO o tot ty (flat (writeC o ty v) ++ rest, el)) = OOk (norm ty v, (rest, el + cnt ty v)).
+Proof. exact (roundtrip_stateO o ty v). Qed.
+Theorem C12_reflect_list_any_order o l :
+  supported_all l = true ->
+  snd (write_fromC o l) = OOk tt /\ cnt_all l <= N.of_nat (length (flat (write_fromC o l))) /\
+  forall tot rest el, el + cnt_all l <= tot ->
+    fst (read_intoO o tot (map fst l) (flat (write_fromC o l) ++ rest, el)) = OOk (map (fun p => norm (fst p) (snd p)) l, (rest, el + cnt_all l)).
+Proof. exact (roundtrip_list_stateO o l). Qed.
+(** the big-endian instance of the order-parametric functions is the model of C12_reflect.v / C13_reflect.v: same bytes and
+    outcome of Write, same outcome, allocation and iteration count of Read *)
+Theorem C12_big_endian_write_is_reflect ty v : of_wres (writeC BE ty v) = write ty v.
+Proof. exact (writeC_BE ty v). Qed.
+Theorem C12_big_endian_read_is_reflect tot ty st : proj (readO BE tot ty st) = read tot ty st.
+Proof. exact (readO_BE tot ty st). Qed.
+
+(** ** 5. the ActorRef factory (actor.NewRef) at string level, for EVERY ParseIP oracle *)
+(** strings.TrimSpace is idempotent and never lengthens *)
+Theorem C12_trim_space_idempotent s : trim_space (trim_space s) = trim_space s.
+Proof. exact (trim_space_idem s). Qed.
+(** the property of the factory the round trip of OnKill / OnKilled / envelope refs relies on: it accepts its own output
+    unchanged (every *Ref in a running system was built by NewRef: ParseRef, Child, Clone go through it or copy) *)
+Theorem C12_newref_idempotent ip a p a' p' : new_ref ip a p = inl (a', p') -> new_ref ip a' p' = inl (a', p').
+Proof. exact (new_ref_idem ip a p a' p'). Qed.
+(** what it returns is never the pair of empty strings (which reads back as a nil ref) and never longer than its input *)
+Theorem C12_newref_shape ip a p a' p' :
+  new_ref ip a p = inl (a', p') ->
+  (exists r, p' = 47 :: r) /\ a' <> [] /\ (length a' <= length a)%nat /\ (length p' <= length p)%nat.
+Proof. exact (new_ref_shape ip a p a' p'). Qed.
+(** ** the hypotheses are satisfiable *)
+(** a Writer that grew past its capacity, holds content and is taken through three levels of nesting *)
+Definition ex_w : writer := mkW [7; 7; 7] 3 LE None.
+Definition ex_pool : wpool := mkWP [(5, mkW [] 4 BE None); (6, mkW [] 700 BE None)] [6; 5; 9].
+Definition ex_msg : wop :=
+  WMsgReg [120; 65] [WPrim BU16 (VN 258); WMsgReg [120; 66] [WShort [1; 2]; WMsgReg [120; 67] [WVarint (-3)] RetSticky] RetSticky; WPrim BStr (VS [104; 105])] RetSticky.
+Example C12_ex_writer : w_ok ex_w /\ wpool_clean ex_pool = true /\
+  exists w' p', run_wop ex_msg ex_w ex_pool = (w', p', None) /\ w_cap w' = 78 /\ length (w_buf w') = 45%nat /\ wpool_clean p' = true /\ length (wp_free p') = 3%nat.
+Proof. split; [vm_compute; discriminate|]. split; [reflexivity|]. eexists. eexists. vm_compute. repeat split. Qed.
+Example C12_ex_wf : Forall wf_op [WPrim BF32 (VN 2143289344); WVarint (-5); WBytesLen 2 [1; 2; 3]; WWrite (TSlice false (TBasic BI16)) (VList [VZ (-2); VZ 5]);
+                                  WWriteFrom [(TStruct [(true, TBasic BStr); (false, TInt)], VStruct [VS [97]; VZ 1])]].
+Proof.
+  constructor; [split; reflexivity|]. constructor; [cbn; lia|]. constructor; [right; left; split; [reflexivity|cbn; lia]|].
+  constructor; [repeat split; reflexivity|]. constructor; [split; [discriminate|reflexivity]|constructor].
+Qed.
+Example C12_ex_admissible : sst_ok s_init /\ admissible (SNewW 0 1 (Some LE) (Some ([1; 2], 2)) false) /\ ~ admissible (SNewW 0 1 None (Some ([1; 2], 1)) false).
+Proof. split; [repeat split; constructor|]. split; [cbn; lia|cbn; lia]. Qed.
+Example C12_ex_newref : new_ref (fun _ => false) [32; 104; 46; 99; 58; 56; 48; 9] [47; 97; 37; 50; 102; 32] = inl ([104; 46; 99; 58; 56; 48], [47; 97; 37; 50; 102]).
+Proof. vm_compute. reflexivity. Qed.
+
+Print Assumptions C12_writer_refines.
+Print Assumptions C12_writer_sequence.
+Print Assumptions C12_writer_reset_forgets.
+Print Assumptions C12_writer_append_only.
+Print Assumptions C12_writer_sticky.
+Print Assumptions C12_nested_frame.
+Print Assumptions C12_writemessage_rollback.
+Print Assumptions C12_machine_roundtrip.
+Print Assumptions C12_ops_roundtrip.
+Print Assumptions C12_message_roundtrip.
+Print Assumptions C12_scenario.
+Print Assumptions C12_reader_pool_independent.
+Print Assumptions C12_pool_default_order.
+Print Assumptions C12_reader_pool_default_order.
+Print Assumptions C12_pool_order_regression.
+Print Assumptions C12_reader_pool_order_regression.
+Print Assumptions C12_seek_is_fresh_reader.
+Print Assumptions C12_seek_then_decode.
+Print Assumptions C12_seek_reread.
+Print Assumptions C12_seek_reread_regression.
+Print Assumptions C12_prim_any_order.
+Print Assumptions C12_bytes_with_length_any_order.
+Print Assumptions C12_order_mismatch_refuted.
+Print Assumptions C12_reflect_any_order.
+Print Assumptions C12_reflect_list_any_order.
+Print Assumptions C12_big_endian_write_is_reflect.
+Print Assumptions C12_big_endian_read_is_reflect.
+Print Assumptions C12_trim_space_idempotent.
+Print Assumptions C12_newref_idempotent.
+Print Assumptions C12_newref_shape.
